@@ -154,11 +154,11 @@ func catalogue() []response {
 	pc := []srv.Col{{Name: "@out", Type: srv.TIntN, MaxLen: 4, Status: 0x1}, {Name: "@s", Type: srv.TVarChar, MaxLen: 30, Status: 0x1}}
 	r.add("pkg", srv.RowFmt(true, colI4))
 	r.add("pkg", srv.Data(srv.TokRow, []srv.Col{colI4}, vals(srv.I32(42))))
-	r.add("pkg", srv.Done(srv.TokDoneInProc, srv.DoneMore|srv.DoneCount, 0, 1))
+	r.add("doneX", srv.Done(srv.TokDoneInProc, srv.DoneMore|srv.DoneCount, 0, 1))
 	r.add("pkg", srv.ReturnStatus(-6))
 	r.add("pkg", srv.ParamFmt(false, pc...))
 	r.add("pkg", srv.Data(srv.TokParams, pc, vals(srv.I32(99), []byte("out value"))))
-	r.add("pkg", srv.Done(srv.TokDoneProc, srv.DoneProc, 0, 0))
+	r.add("doneX", srv.Done(srv.TokDoneProc, srv.DoneProc, 0, 0))
 	r.add(done(0, 0))
 
 	r = mk("paramfmt2-params")
